@@ -151,6 +151,22 @@ CLAIMS = {
              "result-source-diagnostic CHOICE is modelled on its canonical form, not verified.",
         technique="Coq proof (component-list lemmas by induction, per-APDU layout and inverse theorems) + generated tables + differential correspondence",
         design="4/C02"),
+    "C07": dict(
+        text="Coq theorems (axiom-free, for an arbitrary block function, hence AES) about the model of the whole receive path "
+             "(XDlmsApduFactory over all xDLMS and ACSE decoders, update_meter_info, unprotect with counter check and GCM "
+             "decryption, the pre-established guard, the state machine and its HLS tail, update_negotiated_parameters): "
+             "whenever next_event raises - for ANY input bytes and ANY reason - protocol state, both invocation counters, "
+             "meter title, mechanism, challenge, conformance and PDU size are exactly what they were; and a refused input "
+             "inserted anywhere in ANY session leaves every later step, genuine answers included, exactly as it would have "
+             "been (induction over the session). The model is executable with the Gallina AES-GCM and is compared with the "
+             "real DlmsConnection after every step of complete ciphered / pre-established / plain sessions with every kind "
+             "of refused input inserted at every position; the search checks the implementation's own attributes (and its "
+             "receive buffer) before/after and the genuine continuation.",
+        note="The theorems are immediate from the structure next_event has since repo fix 47ff9e5 (restore on raise); what "
+             "carries the weight is the tie: the model agrees with the implementation on result and all observables after "
+             "every step. asn1crypto's decoding of non-canonical diagnostics is outside the model (such scripts are skipped).",
+        technique="Coq proof over an executable model of the connection (AES-GCM included) + session-level differential correspondence + before/after search",
+        design="4/C07"),
     "C05": dict(
         text="Coq theorems (axiom-free), for an ARBITRARY block function with 16-byte output and hence for AES: protecting a "
              "plaintext yields GCM ciphertext || first 12 tag bytes with nonce = title || 4-byte counter and AAD = "
